@@ -1,4 +1,5 @@
 import SctpVerif.Proofs.NetSys.LiveDrain
+import SctpVerif.Proofs.NetSys.LiveTaken
 import SctpVerif.Props.C01sel
 /-!
 # C02 on the composed model — the receiver's own SACKs make the sender-side progress theorems applicable
@@ -47,6 +48,31 @@ reassembly-level fact "held bytes = bytes of TSNs above the cumulative point + a
 Equality `reads = writes` at the end additionally needs reassembly completeness (`C01_complete_iff_data`) composed with
 the receive queue; here it is evaluated on the example run only.
 
+**Towards removing `Taken`** (second pass). The two halves of the argument are now theorems on NetSys:
+* `C02_netsys_lowest_on_wire` (sender half, every reachable established state): after the round's "T3 (if something is in
+  flight); gather (free budget, FIFO)" the LOWEST outstanding chunk — head of the in-flight queue, TSN = cumulative ack
+  point + 1 — is gap-acked or is the FIRST chunk that gather put on the wire, whatever cwnd / rwnd are (T3 flags it and
+  `getDataPacketsToRetransmit` exempts loop index 0 from the window test; nothing in flight ⇒ zero-window probe);
+* `C02_netsys_receiver_takes` (receiver half, every reachable state with the receiver established): handed a chunk of the
+  history with TSN = cumulative point + 1 — and a stream object available — `handleData` moves the cumulative point forward
+  when `Room` holds (credit > 0, or something is held above the cumulative point: the chunk then lies below the highest TSN
+  received and is stored at a FULL buffer, the zero-window admission rule), unless the reassembly queue refuses the chunk, in
+  which case `willSendAbort` or `panicked` is up afterwards.
+`LiveDefs.lean` states the premises of one round as the decidable `RoundOk P s` = receiver established ∧ `Room` ∧ `InSync` (the
+sender's cumulative ack point is not ahead of the receiver's, and when they coincide the lowest outstanding chunk is not
+gap-acked) ∧ `HeadOk` (no ABORT / panic in answer to the round's first delivery). STILL MISSING, each with the lemma that
+closes it: (a) the glue `RoundOk P s → 0 < outstanding s → Taken P s` — the first `deliver` of the round carries the chunk of
+`C02_netsys_lowest_on_wire` to the state of `C02_netsys_receiver_takes` (`run_acceptAll`, `run_idx_mono`, `sndPre_cumAck`
+are proved; the frame of `chunksStart` / `chunksEnd` around `handleData` and the split `roundOps = firstOps ++ …` are not);
+(b) `Honest ⇒ InSync` as a run invariant (proved towards it: `markGaps_acked` — a chunk acked by the gap loop is named by a
+block —, `gather_ackedFrom` — a gather appends un-acked chunks only; missing: the receiver-side monotonicity "accepted stays
+accepted" over `qrun` and the induction over the run); (c) `Room` after the application has read everything readable from
+`FitsBuffer` (`maxMessageSize ≤ maxReceiveBufferSize`): needs the CONVERSE of `Reasm.OrdInv.pushed` — every pushed fragment of
+a message at or above the cursor is in the table — so that "nothing held above the cumulative point and nothing readable"
+bounds the held bytes by one incomplete message; the same converse gives `reads = writes` at the end (`C02_netsys_all_read`,
+not stated); (d) `HeadOk` from `maxReassemblyQueueEntries = 0` (the per-queue invariant `maxEntries = 0`; `QPres` of
+`Proofs/Receiver/Basic.lean` quantifies over all entry limits and does not apply as it is).
+
 **NOT covered**: timers really firing and their back-off bounds ("within a few maximum RTOs": C19 gives the RTO clamp
 `C19_rto_clamp`-style bounds and the timer automaton; a healed round costs at most one T3 period ≤ `rtoMax` plus the 200 ms
 ack interval — combined in prose only); goroutine wake-ups (`awakeWriteLoop`, `readNotifier`); that the receiver's `gather`
@@ -94,6 +120,46 @@ theorem C02_netsys_truthful_sack_accepted (P : Params) (ops : List Op) (hc : Sen
         · right; simp [he]
       · rw [hv] at h; cases h
   · exact Or.inl hok
+
+/-- **Sender half of a healed round: the lowest outstanding chunk goes on the wire** whatever cwnd / rwnd are. In every
+reachable NetSys state with the sender established, something outstanding, every un-acked in-flight chunk fitting a packet
+(`InfFit`: `SenderProofs.run_inffit` under `TsnOk`) and no in-flight chunk abandoned (`C07_reliable_never_abandoned` over
+reliable streams): after the sender operations of the healed round — T3 iff something is in flight, then
+`gather freeOracle` with FIFO selection; `(preSack P s).snd` is the state they lead to — the in-flight queue is not empty, its
+head carries TSN `cumulative ack point + 1`, and that chunk is gap-acked or is the FIRST chunk the gather put on the wire. -/
+theorem C02_netsys_lowest_on_wire (P : Params) (ops : List Op) (hc : SenderProofs.CfgOk P.cfg) (hf : SenderProofs.CfgFit P.cfg)
+    (hest : (run P (init P) ops).snd.established = true)
+    (hsm : (run P (init P) ops).snd.inflight.length + (run P (init P) ops).snd.pending.length < 2^31)
+    (hfit : SenderProofs.InfFit (run P (init P) ops).snd)
+    (hnab : ∀ c ∈ (sndT3 (run P (init P) ops).snd).inflight, (sndT3 (run P (init P) ops).snd).abandoned c = false)
+    (hpos : 0 < outstanding (run P (init P) ops)) :
+    let s := run P (init P) ops
+    ∃ c0 r, (preSack P s).snd.inflight = c0 :: r ∧ c0.tsn = s.snd.cumAck + 1 ∧
+      (c0.acked = true ∨ ∃ e rest,
+        (Sender.gather (sndT3 s.snd) Sender.freeOracle (fifoSel (sndT3 s.snd))).2.packets.flatten = e :: rest ∧ e.tsn = c0.tsn) := by
+  intro s
+  rw [preSack_snd]
+  have hpos' : 0 < (run P (init P) ops).snd.inflight.length + (run P (init P) ops).snd.pending.length := by
+    unfold outstanding at hpos; omega
+  exact head_on_wire (run P (init P) ops).snd (snd_live P ops hc hf hest hsm) hfit hnab hpos'
+
+/-- **Receiver half: the chunk right after the cumulative point is taken — also at a full buffer when it fills a gap.** In
+every reachable NetSys state with the receiver established (`state = 3`): handed a chunk `c` of the wire history whose TSN is
+the receiver's cumulative point + 1, with a stream object available (`getOrCreateStream` succeeds: the stream exists or the
+accept backlog has room), and `Room` — the receiver has credit, or holds something above its cumulative point (then `c` lies
+below the highest TSN received: `acceptPayloadData` stores it although the buffer is full) — `handleData` moves the cumulative
+point forward by at least one (`NetSysLive.idx` = offset of the cumulative point from the initial TSN), unless the reassembly
+queue refuses the chunk: then the ABORT flag or the panic flag is up. Without `Room` the chunk is dropped
+(`C02_netsys_stuck_witness`). -/
+theorem C02_netsys_receiver_takes (P : Params) (ops : List Op) (hN : chunksWritten P ops < 2^31) (c : Sender.Chunk) (imm : Bool)
+    (hc : c ∈ (run P (init P) ops).wire) (hst : (run P (init P) ops).rcv.state = 3#32)
+    (htsn : c.tsn = (run P (init P) ops).rcv.pq.cum + 1)
+    (hstream : (Receiver.getOrCreateStream (run P (init P) ops).rcv c.si true).2.isSome = true)
+    (hroom : Room (run P (init P) ops).rcv = true) :
+    (Receiver.handleData (run P (init P) ops).rcv (toWire P c) imm).willSendAbort = true ∨
+    (Receiver.handleData (run P (init P) ops).rcv (toWire P c) imm).panicked = true ∨
+    idx P.tsn (run P (init P) ops).rcv.pq + 1 ≤ idx P.tsn (Receiver.handleData (run P (init P) ops).rcv (toWire P c) imm).pq :=
+  receiver_takes P ops hN c imm hc hst htsn hstream hroom
 
 /-- **One healed round** (partial: `Taken` is a hypothesis, see the file header). From every reachable NetSys state with the
 sender established and fewer than 2^31 chunks queued: the healed round adds nothing to `pending + in flight`; and if, when
@@ -228,6 +294,12 @@ set_option maxRecDepth 1000000 in
 example : readsOn PD 1 (init PD) (ops0 ++ healedRounds PD 2 (run PD (init PD) ops0)) <+:
     writesOn PD 1 (init PD) (ops0 ++ healedRounds PD 2 (run PD (init PD) ops0)) :=
   C02_netsys_delivered_prefix PD ops0 2 1 rfl (by decide) (by decide) (by decide) (by decide)
+
+-- test: the premises of a round (`RoundOk`: receiver established, `Room`, `InSync`, `HeadOk`) hold at the start of every healed
+-- round of the example that has something outstanding; in the stuck witness `Room` fails from the second round on
+set_option maxRecDepth 1000000 in
+example : RoundOkN PD 3 (run PD (init PD) ops0) = true ∧ Room (run PD (init PD) ops0).rcv = true ∧
+    InSync (run PD (init PD) ops0) = true ∧ HeadOk PD (run PD (init PD) ops0) = true := by decide
 
 set_option maxRecDepth 1000000 in
 /-- **Witness: a message larger than the receive buffer is never delivered.** Receive buffer 4 bytes, fragments of 2
